@@ -1,1 +1,188 @@
-/-! # C04 — property theorems (to be filled in) -/
+import JokerVerif.Props.C03
+/-!
+# C04 — a sample row denotes one RV curve everywhere; the Bayes identity holds
+
+`kep` (the unit-amplitude Kepler curve) is an uninterpreted oracle: the theorems are about argument plumbing —
+the kernel's design-matrix row dotted with a row's linear parameters is the RV of the orbit that the same row
+reconstructs (same Kepler term, trend expanded about the same `t_ref`, the epoch's own survey offset) — and
+about the consistency of marginal likelihood, unmarginalised likelihood, linear prior and conditional posterior.
+-/
+open Matrix
+
+namespace Kernel
+
+section Field
+variable {α : Type} [Field α]
+
+theorem rowDot_cons (r x : α) (rs xs : List α) : rowDot (r :: rs) (x :: xs) = r * x + rowDot rs xs := by
+  simp [rowDot]
+
+theorem rowDot_append (r1 r2 x1 x2 : List α) (h : r1.length = x1.length) :
+    rowDot (r1 ++ r2) (x1 ++ x2) = rowDot r1 x1 + rowDot r2 x2 := by
+  unfold rowDot
+  rw [List.zipWith_append h, List.sum_append]
+
+/-- indicator columns pick out exactly the epoch's own survey offset -/
+theorem rowDot_indicators (id : Nat) : ∀ (offsets : List α) (base : Nat),
+    rowDot ((List.range' base offsets.length).map fun j => if id = j + 1 then (1 : α) else 0) offsets
+      = if h : base + 1 ≤ id ∧ id < base + 1 + offsets.length then offsets.getD (id - 1 - base) 0 else 0 := by
+  intro offsets
+  induction offsets with
+  | nil => intro base; simp [rowDot]
+  | cons o os ih =>
+    intro base
+    simp only [List.length_cons, List.range'_succ, List.map_cons, rowDot_cons]
+    rw [ih (base + 1)]
+    by_cases h1 : id = base + 1
+    · subst h1; simp
+    · simp only [h1, if_false, zero_mul, zero_add]
+      by_cases h2 : base + 1 + 1 ≤ id ∧ id < base + 1 + 1 + os.length
+      · have h3 : base + 1 ≤ id ∧ id < base + 1 + (os.length + 1) := by omega
+        rw [dif_pos h2, dif_pos h3]
+        have : id - 1 - base = (id - 1 - (base + 1)) + 1 := by omega
+        rw [this]; simp
+      · have h3 : ¬ (base + 1 ≤ id ∧ id < base + 1 + (os.length + 1)) := by omega
+        rw [dif_neg h2, dif_neg h3]
+
+/-- trend columns reproduce the polynomial about `t_ref` -/
+theorem rowDot_powers (dt : α) : ∀ (vtrend : List α) (base : Nat),
+    rowDot ((List.range' base vtrend.length).map fun l => dt ^ (l + 1)) vtrend = polyFrom dt (base + 1) vtrend := by
+  intro vtrend
+  induction vtrend with
+  | nil => intro base; simp [rowDot, polyFrom]
+  | cons c cs ih =>
+    intro base
+    simp only [List.length_cons, List.range'_succ, List.map_cons, rowDot_cons, polyFrom]
+    rw [ih (base + 1)]; ring
+
+/-- **the kernel's RV model is the reconstructed orbit's RV**: for every epoch (Kepler term `kep`, time offset
+`dt = t − t_ref`, survey label `id ≤ q`) and every linear-parameter vector `[K, v0, dv0_1..dv0_q, v1..v_{p-1}]`,
+`design row · x = K·kep + Σ_l v_l dt^l + offset(id)` -/
+theorem design_row_eq_orbit (kep dt K v0 : α) (offsets vtrend : List α) (id q p : Nat)
+    (hq : offsets.length = q) (hp : vtrend.length = p - 1) (hid : id ≤ q) :
+    rowDot (designRow kep dt id q p) (K :: v0 :: (offsets ++ vtrend)) = orbitRV K kep dt v0 vtrend offsets id := by
+  unfold designRow orbitRV
+  rw [rowDot_cons, rowDot_cons, rowDot_append _ _ _ _ (by simp [hq])]
+  have e1 : (List.range q) = List.range' 0 offsets.length := by rw [hq, List.range_eq_range']
+  have e2 : (List.range (p - 1)) = List.range' 0 vtrend.length := by rw [hp, List.range_eq_range']
+  rw [e1, e2, rowDot_indicators id offsets 0, rowDot_powers dt vtrend 0]
+  have hoff : (if h : 0 + 1 ≤ id ∧ id < 0 + 1 + offsets.length then offsets.getD (id - 1 - 0) 0 else 0)
+      = offsetOf offsets id := by
+    cases id with
+    | zero => simp [offsetOf]
+    | succ j =>
+      have : 0 + 1 ≤ j + 1 ∧ j + 1 < 0 + 1 + offsets.length := by omega
+      rw [dif_pos this]; simp [offsetOf]
+  rw [hoff]; ring
+
+end Field
+
+section Ordered
+variable {α : Type} [LinearOrder α]
+
+theorem foldl_min_le (r : List α) (m0 : α) : r.foldl min m0 ≤ m0 ∧ ∀ t ∈ r, r.foldl min m0 ≤ t := by
+  induction r generalizing m0 with
+  | nil => simp
+  | cons x xs ih =>
+    obtain ⟨h1, h2⟩ := ih (min m0 x)
+    simp only [List.foldl_cons]
+    refine ⟨le_trans h1 (min_le_left _ _), ?_⟩
+    intro t ht
+    rcases List.mem_cons.mp ht with rfl | hx
+    · exact le_trans h1 (min_le_right _ _)
+    · exact h2 t hx
+
+theorem foldl_min_mem (r : List α) (m0 : α) : r.foldl min m0 = m0 ∨ r.foldl min m0 ∈ r := by
+  induction r generalizing m0 with
+  | nil => simp
+  | cons x xs ih =>
+    simp only [List.foldl_cons]
+    rcases ih (min m0 x) with h | h
+    · rcases min_choice m0 x with hm | hm
+      · left; rw [h, hm]
+      · right; rw [h, hm]; exact List.mem_cons_self
+    · right; exact List.mem_cons_of_mem _ h
+
+/-- the reference epoch of merged data is its earliest time: a member, and a lower bound of every time -/
+theorem tref_is_min (ts : List α) (t0 : α) (h : tRef ts = some t0) : t0 ∈ ts ∧ ∀ t ∈ ts, t0 ≤ t := by
+  cases ts with
+  | nil => simp [tRef] at h
+  | cons t r =>
+    simp only [tRef, Option.some.injEq] at h
+    subst h
+    obtain ⟨h1, h2⟩ := foldl_min_le r t
+    constructor
+    · rcases foldl_min_mem r t with h | h
+      · rw [h]; exact List.mem_cons_self
+      · exact List.mem_cons_of_mem _ h
+    · intro u hu
+      rcases List.mem_cons.mp hu with rfl | hx
+      · exact h1
+      · exact h2 u hx
+
+/-- … so it does not depend on the order in which surveys (or epochs) are merged -/
+theorem tref_merge_perm (ts ts' : List α) (hp : ts.Perm ts') : tRef ts = tRef ts' := by
+  cases h : tRef ts with
+  | none =>
+    cases ts with
+    | nil =>
+      have : ts' = [] := by simpa using hp
+      subst this; rfl
+    | cons t r => simp [tRef] at h
+  | some a =>
+    obtain ⟨ha1, ha2⟩ := tref_is_min ts a h
+    cases h' : tRef ts' with
+    | none =>
+      cases ts' with
+      | nil => exact absurd (hp.subset ha1) (by simp)
+      | cons t r => simp [tRef] at h'
+    | some b =>
+      obtain ⟨hb1, hb2⟩ := tref_is_min ts' b h'
+      have h1 : a ≤ b := ha2 b (hp.symm.subset hb1)
+      have h2 : b ≤ a := hb2 a (hp.subset ha1)
+      rw [le_antisymm h1 h2]
+
+end Ordered
+
+noncomputable section
+variable {n k : ℕ}
+
+/-- **Bayes identity** for the kernel's own quantities: for *every* linear-parameter vector `xl` (not only drawn
+ones), `marginal ln-likelihood(θ) = ln p(y | θ, xl) + ln p(xl | θ) − ln N(xl | a, A)` with `(a, A)` the
+posterior parameters the kernel computes -/
+theorem bayes_identity (x : KIn n k ℝ) (σ : Fin n → ℝ) (h : Phys x σ) (xl : Fin k → ℝ) :
+    kll x = lnN (vfun x.y) (x.M.toM *ᵥ xl) (diagonal fun i => (σ i) ^ 2 + x.s ^ 2)
+          + lnN xl (vfun x.mu) (diagonal (vfun x.lam))
+          - lnN xl (vfun (ka x)) (kA x).toM := by
+  have hv : ∀ i, 0 < (σ i) ^ 2 + x.s ^ 2 := fun i => by
+    have := pow_pos (h.sig_pos i) 2; positivity
+  have hm := marginalisation_identity x.M.toM (vfun x.y) (fun i => (σ i) ^ 2 + x.s ^ 2) (vfun x.mu) (vfun x.lam) xl
+    hv h.lam_pos
+  simp only at hm
+  have hcs : cs x = fun i => ((σ i) ^ 2 + x.s ^ 2)⁻¹ := funext h.cs_eq
+  have hCi : (diagonal fun i => (σ i) ^ 2 + x.s ^ 2)⁻¹ = diagonal (cs x) := by
+    rw [KernelLemmas.inv_diag _ (fun i => (hv i).ne'), hcs]
+  have hLi : (diagonal (vfun x.lam))⁻¹ = diagonal (fun j => (vfun x.lam j)⁻¹) :=
+    KernelLemmas.inv_diag _ (fun j => (h.lam_pos j).ne')
+  have hA : (kA x).toM = ((diagonal (vfun x.lam))⁻¹ + x.M.toMᵀ * (diagonal fun i => (σ i) ^ 2 + x.s ^ 2)⁻¹ * x.M.toM)⁻¹ := by
+    rw [kA_toM, kAinv_toM, hCi, hLi]
+  have ha : vfun (ka x) = ((diagonal (vfun x.lam))⁻¹ + x.M.toMᵀ * (diagonal fun i => (σ i) ^ 2 + x.s ^ 2)⁻¹ * x.M.toM)⁻¹ *ᵥ
+      ((diagonal (vfun x.lam))⁻¹ *ᵥ vfun x.mu + x.M.toMᵀ *ᵥ ((diagonal fun i => (σ i) ^ 2 + x.s ^ 2)⁻¹ *ᵥ vfun x.y)) := by
+    rw [ka_fun, kAinv_toM, hCi, hLi]
+  have hB : diagonal (fun i => (σ i) ^ 2) + (x.s ^ 2) • (1 : Matrix (Fin n) (Fin n) ℝ)
+      + x.M.toM * diagonal (vfun x.lam) * x.M.toMᵀ
+      = diagonal (fun i => (σ i) ^ 2 + x.s ^ 2) + x.M.toM * diagonal (vfun x.lam) * x.M.toMᵀ := by
+    congr 1
+    rw [← diagonal_one, ← diagonal_smul, diagonal_add]
+    congr 1; funext i; simp
+  rw [kernel_ll_eq_lnN x σ h, hB, hA, ha]
+  linarith
+
+end
+
+-- non-vacuity: a concrete row (q = 2 offsets, p = 3 trend terms, epoch of survey 2)
+example : rowDot (designRow (1/2 : ℚ) 3 2 2 3) [10, 1, 5, 7, 2, 1] = orbitRV 10 (1/2) 3 1 [2, 1] [5, 7] 2 := by
+  decide +kernel
+example : orbitRV (10 : ℚ) (1/2) 3 1 [2, 1] [5, 7] 2 = 5 + (1 + 2 * 3 + 1 * 9) + 7 := by decide +kernel
+
+end Kernel
